@@ -362,7 +362,9 @@ class ErrorHandler:
                     index_in_tag_end = start + error_object['index_in_tag_end']
                 new_end = index_in_tag_end
             error_object['char_index'], error_object['char_index_end'] = new_start, new_end
-            error_object['message'] += f"  Problem spans string indexes: {new_start}, {new_end}"
+            location = f"  Problem spans string indexes: {new_start}, {new_end}"
+            if not error_object['message'].endswith(location):  # an issue may pass through here more than once
+                error_object['message'] += location
 
     @hed_error("Unknown")
     def val_error_unknown(*args, **kwargs):
